@@ -2056,9 +2056,8 @@ func marshalTuple(info TypeInfo, value interface{}) ([]byte, error) {
 				return nil, err
 			}
 
-			n := len(data)
-			buf = appendInt(buf, int32(n))
-			buf = append(buf, data...)
+			// a typed nil pointer marshals to null like an untyped nil does
+			buf = appendBytes(buf, data)
 		}
 
 		return buf, nil
